@@ -135,9 +135,9 @@ async fn full_read(ds: &Dataset, h: &Hist, offsets: &[u64], preds: &[String]) ->
         let r = other_reads(ds, offsets, preds, &row_ids).await?;
         Ok((s, r))
     });
-    match tokio::time::timeout(std::time::Duration::from_secs(75), fut).await {
+    match tokio::time::timeout(std::time::Duration::from_secs(60), fut).await {
         Ok(r) => r,
-        Err(_) => Err("WATCHDOG: read did not complete within 75 s".into()),
+        Err(_) => Err("WATCHDOG: read did not complete within 60 s".into()),
     }
 }
 
@@ -149,6 +149,12 @@ async fn one_case(seed: u64, case: u64, max_ops: usize, report: &Report) {
     }
     cfg.no_deferred_remap = std::env::var("E_HIST_C38_NO_DEFER").is_ok();
     let (cache_name, idx_bytes, meta_bytes) = CACHES[(case % 3) as usize];
+    // An indexed query through a zero-capacity Session never completes after a deferred-remap
+    // compaction (liveness; work/findings/C38-indexed-query-never-completes-…md). The watchdog makes
+    // that inconclusive but costs 60 s per hit, so the quick tier does not combine the two.
+    if cache_name == "none" && max_ops <= 12 {
+        cfg.no_deferred_remap = true;
+    }
     let n_tables = rng.urange(1, 3);
     let n_ops = rng.urange(6, max_ops);
     let w = weights();
@@ -230,7 +236,10 @@ async fn one_case(seed: u64, case: u64, max_ops: usize, report: &Report) {
                     }
                     if let Some(e) = [&reference, &got].iter().filter_map(|r| r.as_ref().err()).find(|e| e.starts_with("WATCHDOG")) {
                         report.inconclusive(&format!("case {case}: {}:v{} ({how}, cache {cache_name}): {e}", loc.label(), v));
-                        continue;
+                        // one firing per case is enough: give the rest of the budget to other cases
+                        h.count_ops(report);
+                        report.case(None);
+                        return;
                     }
                     match (&reference, &got) {
                         (Ok((rs, rr)), Ok((gs, gr))) => {
